@@ -141,6 +141,8 @@ class Gen:
             return ["time"] + list(rng.choice(TIMES))
         if r < 0.64:
             p, u = rng.choice(NS)
+            if rng.random() < 0.15:
+                return ["id", rng.choice(["prov:weird", "xsd:int", "urn:uuid:0-1", "a b", "mailto:x@y.test"])]
             return ["id", u + rng.choice(LOCALS)]
         if r < 0.74:
             n = self.name(c, allow_bad=False)
